@@ -388,3 +388,18 @@ def dec_val(s):
     if s == '8':
         return 8
     return 9
+
+
+@uninterpreted
+def ord_(c) -> Int:
+    """ord() of a one-character string"""
+    return ord(c)
+
+
+def ord___facts(c, r):
+    return r >= 0
+
+
+@uninterpreted
+def chr_(n) -> Str:
+    return chr(n)
